@@ -140,6 +140,11 @@ impl Family for C11Family {
         }
         let mut op = plain_op(reg_kind);
         op.yields = gen_yields(&mut r, 8, 2);
+        // one cell run in ten: the store refuses the first save (key store full); whatever the client makes of
+        // that, a registration that does succeed is judged as every other one
+        if r.chance(1, 10) {
+            op.faults.push(Fault { seam: SeamKind::Save, nth: 0, status: 0x28, sticky: false, late: false });
+        }
         actor.ops.push(op);
         let auth_kind = if r.bool() {
             let mut s = gen_auth(&mut r, rp);
